@@ -78,6 +78,10 @@ FLAVOURS = ["str", "int", "tuple", "dc", "dw", "obj", "expl", "weird"]
 IDCONF = ["default", "callback", "subclass"]
 
 
+class FromDictFault(Exception):
+    """raised by the history engine's from_dict mapper at a chosen item"""
+
+
 class Finding:
     def __init__(self, tag, msg):
         self.tag = tag      # e.g. "C01:wf_graph"
@@ -357,8 +361,9 @@ class Session:
         elif k == "addnode":
             P_ = self.mnode(op["parent"])
             src = m.find(op["src"])
+            # copy_to() has no node_id parameter: an id the generator drew for this op is simply not passed
             outcome = m.add_node(P_, src, bool(op.get("deep")), self._before_model(op.get("before")), op.get("kind"),
-                                 node_id=op.get("node_id"))
+                                 node_id=op.get("node_id") if op.get("via") != "copy_to" else None)
             tgt = self.real(op["parent"])
             if self.typed and op.get("kind") is not None:
                 kw["kind"] = op["kind"]
@@ -518,6 +523,56 @@ class Session:
                     outcome = M.Unspec("copy_to has no before")
             else:
                 call = lambda: tgt.add(other, before=self._before_real(op.get("before")), deep=op.get("deep"))
+        elif k == "fromdict":
+            # node.from_dict(<nested list of dicts>) on a node without children: the items become its branch, in order;
+            # a collision among the items (any level) refuses the whole call; a mapper that raises half-way is a
+            # callback fault (C13: only C01-C03 are demanded afterwards - the model is re-read from the tree)
+            P_ = self.mnode(op["node"])
+            om = M.MTree(typed=self.typed, rule=m.rule, default_kind=m.default_kind)
+
+            def _rec(mk, lst):
+                for d, did, kids in lst:
+                    mn = om.new(d, did if did is not None else m.rule(d), m.default_kind if self.typed else None)
+                    mk.append(mn)
+                    _rec(mn.children, kids)
+
+            _rec(om.top, op["spec"])
+
+            def _dup(lst):
+                ids = [x.data_id for x in lst]
+                return len(set(ids)) != len(ids) or any(_dup(x.children) for x in lst)
+
+            if op.get("fail_at") is not None:
+                outcome = M.Unspec("mapper fault inside from_dict")
+            elif m.kids(P_):
+                outcome = M.Unspec("from_dict on a node that has children")
+            elif _dup(om.top):
+                outcome = M.Refuse(M.UNIQ)
+            else:
+                outcome = m.add_many(P_, list(om.top), True, None, ret="any")
+
+            def _items(lst):
+                out = []
+                for d, did, kids in lst:
+                    it = {"data": d}
+                    if did is not None:
+                        it["data_id"] = did
+                    if kids or self.rng.random() < 0.3:
+                        it["children"] = _items(kids)
+                    out.append(it)
+                return out
+
+            items = _items(op["spec"])
+            calls = [0]
+
+            def _mapper(parent, item):
+                calls[0] += 1
+                if calls[0] == op.get("fail_at"):
+                    raise FromDictFault(f"mapper fault at item {calls[0]}")
+                return item["data"]
+
+            tgt = self.real(op["node"])
+            call = (lambda: tgt.from_dict(items, mapper=_mapper)) if op.get("mapper") else (lambda: tgt.from_dict(items))
         else:
             raise KeyError(k)
         try:
@@ -799,13 +854,13 @@ class Session:
 PROFILES = {
     # weights per op kind
     "c01": {"stale_use": 3, "move_foreign": 0.6, "add": 10, "sibling": 3, "addnode": 5, "copy_children": 2, "move": 9, "remove": 9, "remove_children": 2, "clear": 0.4,
-            "del": 2, "sort": 2, "set_data": 4, "rename": 1, "filter": 2, "addtree": 2, "meta": 1},
+            "del": 2, "sort": 2, "set_data": 4, "rename": 1, "filter": 2, "addtree": 2, "fromdict": 2, "meta": 1},
     "c02": {"stale_use": 1.5, "move_foreign": 0.6, "add": 10, "sibling": 2, "addnode": 6, "copy_children": 1, "move": 4, "remove": 7, "remove_children": 1, "clear": 0.3,
-            "del": 2, "sort": 1, "set_data": 14, "rename": 2, "filter": 2, "addtree": 1, "meta": 0},
+            "del": 2, "sort": 1, "set_data": 14, "rename": 2, "filter": 2, "addtree": 1, "fromdict": 1.5, "meta": 0},
     "c03": {"stale_use": 2.5, "move_foreign": 0.6, "add": 8, "sibling": 4, "addnode": 8, "copy_children": 4, "move": 10, "remove": 8, "remove_children": 1, "clear": 0.2,
-            "del": 1, "sort": 1, "set_data": 10, "rename": 3, "filter": 1, "addtree": 4, "meta": 0},
+            "del": 1, "sort": 1, "set_data": 10, "rename": 3, "filter": 1, "addtree": 4, "fromdict": 3, "meta": 0},
     "c04": {"stale_use": 1.5, "move_foreign": 0.6, "add": 10, "sibling": 4, "addnode": 4, "copy_children": 2, "move": 8, "remove": 7, "remove_children": 2, "clear": 0.3,
-            "del": 2, "sort": 3, "set_data": 5, "rename": 2, "filter": 1, "addtree": 2, "meta": 5},
+            "del": 2, "sort": 3, "set_data": 5, "rename": 2, "filter": 1, "addtree": 2, "fromdict": 2, "meta": 5},
 }
 
 
@@ -1066,6 +1121,24 @@ def _gen_kind(s, rng, k, nodes, hostile, allow_unspec):
             if op["deep"] is None:
                 op["deep"] = True
         return op
+    if k == "fromdict":
+        leaves = [n for n in nodes if not n.children]
+        if not leaves:
+            return None
+        tgt = rng.choice(leaves)
+        total = [0]
+
+        def spec(depth):
+            out = []
+            for _ in range(rng.randint(1 if depth == 0 else 0, 3)):
+                total[0] += 1
+                did = s.mkid(rng) if (s.flavour == "expl" or rng.random() < 0.1) else None
+                out.append([s.mkdata(rng), did, spec(depth + 1) if depth < 2 and rng.random() < 0.5 else []])
+            return out
+
+        sp = spec(0)
+        fail_at = rng.randint(1, total[0]) if rng.random() < 0.35 else None
+        return {"op": "fromdict", "node": tgt.uid, "spec": sp, "fail_at": fail_at, "mapper": fail_at is not None or rng.random() < 0.5}
     if k == "meta":
         if not nodes:
             return None
